@@ -2,6 +2,7 @@ import Aldy.Driver.C05
 import Aldy.Driver.C02
 import Aldy.Driver.C03
 import Aldy.Driver.C18
+import Aldy.Driver.C19
 
 /-! Line-protocol driver: one JSON object per input line (`{"op": ..., ...}`), one JSON
 object per output line.  Errors are reported as `{"error": msg}`; the driver never guesses. -/
@@ -23,6 +24,7 @@ def dispatch (j : Json) : Except String Json := do
   | "params_update" => opParamsUpdate j
   | "split_param" => opSplitParam j
   | "param_table" => opParamTable j
+  | "guard" => opGuard j
   | "ping" => pure (objJ [("pong", boolJ true)])
   | _ => .error s!"unknown op {op}"
 
